@@ -217,7 +217,7 @@ def record_traces(seed: int, n_traces: int, length: int) -> List[Dict[str, Any]]
             elif kind == "Simulate":
                 ev.update(how="simulate()")
             elif kind == "RegisterBuffer":
-                ev.update(d=rng.choice(["f32", "f64"]), how=rng.choice(BUFS[p]), via="primary")
+                ev.update(d=rng.choice(["f32", "f64", "i64"] if w.prim[p].dtype is not None else ["f32", "f64"]), how=rng.choice(BUFS[p]), via="primary")
             else:
                 cur = NAME[torch.get_default_dtype()]
                 ev.update(p="-", d="f64" if cur == "f32" else "f32", how="set_default_dtype", via="-")
